@@ -259,7 +259,7 @@ func checkC14(r *Report) {
 	e := runEffect(p)
 	pathTrusted(r)
 	effectTrusted(r)
-	r.Explain = "Structural clauses of 'the in-memory client reports what was last added'. C14.a NOOP-STORE (deny-list, expected count zero, armed by a positive example analysed on every run): no store in package resolve writes back to s[i] the value just read from s[i] — the shape of AddVersion's replace branch storing the old element instead of the new one. C14.b REPLACE-STORES-NEW: in LocalClient.AddVersion the store into the version slice inside the replace loop stores the parameter. C14.c READ-PURE: Version, Versions, Requirements and MatchingVersions of LocalClient write nothing reachable from the receiver, so lookups cannot change what later lookups report. C14.d ADD-COMPLETE: every return of AddVersion except the one for Deleted versions passes the store of the requirements, the store of the version list and the loop (or helper) that makes dependency packages known. C14.f KNOWN-BY-PRESENCE: Versions, Requirements and MatchingVersions decide between 'found' and ErrNotFound on the comma-ok result of a lookup in the client's own table (presence of the key), never on the looked-up value being nil or empty, so a package known only through a requirement (present with no versions) is reported as known by all of them alike. C14.e KEY-COVER: each lookup method reads every leaf component of the key it is given, so a key that was never added cannot be reported as found because it resembles a stored one. Not decided: equivalence with a map model over all histories."
+	r.Explain = "Structural clauses of 'the in-memory client reports what was last added'. C14.a NOOP-STORE (deny-list, expected count zero, armed by a positive example analysed on every run): no store in package resolve writes back to s[i] the value just read from s[i] — the shape of AddVersion's replace branch storing the old element instead of the new one. C14.b REPLACE-STORES-NEW: in LocalClient.AddVersion the store into the version slice inside the replace loop stores the parameter. C14.c READ-PURE: Version, Versions, Requirements and MatchingVersions of LocalClient write nothing reachable from the receiver, so lookups cannot change what later lookups report. C14.d ADD-COMPLETE: every return of AddVersion except the one for Deleted versions passes the store of the requirements, the store of the version list and the loop (or helper) that makes dependency packages known. C14.g SORT-AFTER-APPEND: in AddVersion every path from the append of a new version to the store of the version list passes through SortVersions; for npm the position of a version depends on the latest tag of the others, so there is no ordering test on the new element alone that could make the sort unnecessary. C14.f KNOWN-BY-PRESENCE: Versions, Requirements and MatchingVersions decide between 'found' and ErrNotFound on the comma-ok result of a lookup in the client's own table (presence of the key), never on the looked-up value being nil or empty, so a package known only through a requirement (present with no versions) is reported as known by all of them alike. C14.e KEY-COVER: each lookup method reads every leaf component of the key it is given, so a key that was never added cannot be reported as found because it resembles a stored one. Not decided: equivalence with a map model over all histories."
 	fns := pkgFuncs(p, "resolve")
 	r.floor("C14.a/NOOP-STORE", "functions of package resolve scanned", len(fns), 100)
 	nIdxStores := 0
@@ -342,6 +342,7 @@ func checkC14(r *Report) {
 	for _, m := range []string{"Versions", "Requirements", "MatchingVersions"} {
 		knownByPresenceRule(r, p, "C14.f/KNOWN-BY-PRESENCE", "(*resolve.LocalClient)."+m)
 	}
+	sortAfterAppendRule(r, p, "C14.g/SORT-AFTER-APPEND")
 	n := readPureRule(r, p, e, "C14.c/READ-PURE", "resolve.LocalClient")
 	r.floor("C14.c/READ-PURE", "resolve.Client methods of LocalClient", n, 4)
 }
@@ -530,7 +531,7 @@ func checkC18(r *Report) {
 	e := runEffect(p)
 	pathTrusted(r)
 	effectTrusted(r)
-	r.Explain = "Structural clauses of 'the API-backed client maps bundles consistently, race-free'. C18.a LOCKSET: every access to a field F that has a sibling mutex FMu (APIClient.bundledVersions) is made with that mutex held on all paths (forward must-analysis of Lock/Unlock/defer Unlock per basic block). C18.b DERIVED-FIRST: the map update that stores a bundle into bundledVersions is dominated by a SetAttr(version.DerivedFrom, ...) call in the same function, so a stored bundle always records what it derives from. C18.c BUNDLE-GUARD: in each of the four resolve.Client methods of APIClient every RPC on the Insights service is on the false side of the isNPMBundle(name) test and the true side reads through getBundledVersion, so all four calls treat bundle names consistently. C18.d CLIENT-STATE: no field of APIClient is stored to after construction and the only field-held memory updated in place is bundledVersions. C18.e ALIAS-ISOLATED: no function of the API client that receives a dependency type by value writes its shared attribute map, so the alias (KnownAs) added to one requirement cannot leak into the other requirements built from the same per-section template. C18.f SORT-SELF: the callback that orders bundles parent-first indexes the very slice being sorted. Not decided: equality of graphs through the two clients; the race detector's verdict on schedules (C18.a is the static necessary condition for it)."
+	r.Explain = "Structural clauses of 'the API-backed client maps bundles consistently, race-free'. C18.a LOCKSET: every access to a field F that has a sibling mutex FMu (APIClient.bundledVersions) is made with that mutex held on all paths (forward must-analysis of Lock/Unlock/defer Unlock per basic block). C18.b DERIVED-FIRST: the map update that stores a bundle into bundledVersions is dominated by a SetAttr(version.DerivedFrom, ...) call in the same function, so a stored bundle always records what it derives from. C18.c BUNDLE-GUARD: in each of the four resolve.Client methods of APIClient every RPC on the Insights service is on the false side of the isNPMBundle(name) test and the true side reads through getBundledVersion, so all four calls treat bundle names consistently. C18.d CLIENT-STATE: no field of APIClient is stored to after construction and the only field-held memory updated in place is bundledVersions. C18.e ALIAS-ISOLATED: no function of the API client that receives a dependency type by value writes its shared attribute map, so the alias (KnownAs) added to one requirement cannot leak into the other requirements built from the same per-section template. C18.g BUNDLE-FROZEN: a slice read out of a bundledVersion outside npmRequirements (which builds the entries before they are stored) is never sorted, appended to, stored into or passed to a callee whose effect summary writes it, because entries of the shared table are handed out to every caller after the lock is released. C18.f SORT-SELF: the callback that orders bundles parent-first indexes the very slice being sorted. Not decided: equality of graphs through the two clients; the race detector's verdict on schedules (C18.a is the static necessary condition for it)."
 	n := locksetRule(r, p, "C18.a/LOCKSET")
 	r.floor("C18.a/LOCKSET", "accesses to guarded fields", n, 2)
 	if tp := loadTestdata(); tp != nil {
@@ -696,6 +697,124 @@ func checkC18(r *Report) {
 	}
 	// C18.d
 	structStateRule(r, p, e, "C18.d/CLIENT-STATE", "resolve", "APIClient", map[string]string{"bundledVersions": "guarded by bundledVersionsMu (C18.a)"})
+	bundleFrozenRule(r, p, e, "C18.g/BUNDLE-FROZEN")
+}
+
+// bundleFrozenRule: a bundledVersion stored in the client's shared table is
+// handed out (by value, sharing its slices) to every caller and every
+// goroutine after the lock is released, so what it holds is never changed in
+// place after it was built: a slice read out of a bundledVersion is not
+// sorted, appended to, stored into, or passed to a callee whose effect summary
+// writes that argument. Only npmRequirements, which builds the entries before
+// they are stored, is exempt.
+func bundleFrozenRule(r *Report, p *Prog, e *Effect, rule string) {
+	isBundle := func(t types.Type) bool {
+		if pt, ok := t.Underlying().(*types.Pointer); ok {
+			t = pt.Elem()
+		}
+		return strings.HasSuffix(t.String(), "deps.dev/util/resolve.bundledVersion")
+	}
+	fromBundle := func(v ssa.Value) (string, bool) {
+		for d := 0; d < 6 && v != nil; d++ {
+			switch x := v.(type) {
+			case *ssa.Field:
+				if isBundle(x.X.Type()) {
+					return x.X.Type().Underlying().(*types.Struct).Field(x.Field).Name(), true
+				}
+				v = x.X
+			case *ssa.UnOp:
+				if fa, ok := x.X.(*ssa.FieldAddr); ok && x.Op == token.MUL {
+					if isBundle(fa.X.Type()) {
+						return fa.X.Type().Underlying().(*types.Pointer).Elem().Underlying().(*types.Struct).Field(fa.Field).Name(), true
+					}
+					v = fa.X
+				} else {
+					v = x.X
+				}
+			case *ssa.Slice:
+				v = x.X
+			case *ssa.ChangeType:
+				v = x.X
+			default:
+				return "", false
+			}
+		}
+		return "", false
+	}
+	nReads := 0
+	perFn := map[*ssa.Function]int{}
+	for _, f := range pkgFuncs(p, "resolve") {
+		if strings.HasSuffix(fnKey(f), ".npmRequirements") || f.Blocks == nil {
+			continue
+		}
+		for _, b := range f.Blocks {
+			for _, in := range b.Instrs {
+				report := func(name, what string, pos token.Pos) {
+					perFn[f]++
+					r.bad(rule, fmt.Sprintf("%s: bundledVersion.%s %s #%d", fnKey(f), name, what, perFn[f]), p.pos(pos), "memory held by an entry of the shared bundle table is changed in place after the entry was stored: every caller and goroutine that was handed this bundle shares the slice, and the write happens outside the lock")
+				}
+				switch x := in.(type) {
+				case *ssa.Field:
+					if isBundle(x.X.Type()) {
+						nReads++
+					}
+				case *ssa.FieldAddr:
+					if isBundle(x.X.Type()) {
+						nReads++
+					}
+				case *ssa.Store:
+					if ia, ok := x.Addr.(*ssa.IndexAddr); ok {
+						if name, ok := fromBundle(ia.X); ok {
+							report(name, "element stored", x.Pos())
+						}
+					}
+				case *ssa.Call:
+					if bi, ok := x.Call.Value.(*ssa.Builtin); ok {
+						if (bi.Name() == "append" || bi.Name() == "copy" || bi.Name() == "clear") && len(x.Call.Args) > 0 {
+							if name, ok := fromBundle(x.Call.Args[0]); ok {
+								report(name, "given to "+bi.Name(), x.Pos())
+							}
+						}
+						continue
+					}
+					sc := x.Call.StaticCallee()
+					if sc == nil {
+						continue
+					}
+					for k, a := range x.Call.Args {
+						name, ok := fromBundle(a)
+						if !ok {
+							continue
+						}
+						writes := false
+						if _, isMut := sliceMutators[fullName(sc)]; isMut && k == 0 {
+							writes = true
+						}
+						if s := e.sums[sc]; s != nil && k < maxParam {
+							for _, o := range s.writes {
+								if o.p&(1<<uint(2*k)) != 0 {
+									writes = true
+								}
+							}
+						}
+						if writes {
+							report(name, "passed to "+fnKey(sc)+", which writes that argument", x.Pos())
+						}
+					}
+				}
+			}
+		}
+	}
+	if len(perFn) == 0 {
+		r.ok(rule, "package resolve: slices of stored bundles", "", fmt.Sprintf("%d reads of bundledVersion fields outside npmRequirements; none is sorted, appended to, stored into or passed to a callee that writes it", nReads))
+	}
+	r.floor(rule, "reads of bundledVersion fields outside npmRequirements", nReads, 3)
+}
+
+// sliceMutators: library functions that reorder or overwrite their first argument.
+var sliceMutators = map[string]bool{
+	"sort.Slice": true, "sort.SliceStable": true, "sort.Sort": true, "sort.Stable": true, "sort.Strings": true, "sort.Ints": true,
+	"slices.Sort": true, "slices.SortFunc": true, "slices.SortStableFunc": true, "slices.Reverse": true,
 }
 
 func lastCallName(in ssa.Instruction) string {
@@ -953,5 +1072,56 @@ func knownByPresenceRule(r *Report, p *Prog, rule, fnName string) {
 	}
 	if n == 0 {
 		r.bad(rule, fnKey(f)+": found/not-found decision", p.pos(f.Pos()), "no branch separating the found return from the ErrNotFound return was recognised: anchor lost")
+	}
+}
+
+// sortAfterAppendRule: see checkC14 (C14.g).
+func sortAfterAppendRule(r *Report, p *Prog, rule string) {
+	f := p.lookupFn("(*resolve.LocalClient).AddVersion")
+	if f == nil {
+		r.bad(rule, "(*resolve.LocalClient).AddVersion", "", "function not found: anchor lost")
+		return
+	}
+	loops := naturalLoops(f)
+	// the store of the version list outside any loop
+	stores := map[*ssa.BasicBlock]bool{}
+	for _, b := range f.Blocks {
+		if innermostLoop(loops, b) != nil {
+			continue
+		}
+		for _, in := range b.Instrs {
+			if mu, ok := in.(*ssa.MapUpdate); ok {
+				if fv := nearestField(mu.Map); fv != nil && fieldOwnerKey(p, fv) == "resolve.LocalClient.PackageVersions" {
+					stores[b] = true
+				}
+			}
+		}
+	}
+	n := 0
+	for _, b := range f.Blocks {
+		for i, in := range b.Instrs {
+			c, ok := in.(*ssa.Call)
+			if !ok {
+				continue
+			}
+			bi, ok := c.Call.Value.(*ssa.Builtin)
+			if !ok || bi.Name() != "append" || !strings.HasSuffix(c.Type().String(), "[]deps.dev/util/resolve.Version") {
+				continue
+			}
+			n++
+			key := fmt.Sprintf("%s: append of a version #%d is followed by SortVersions", fnKey(f), n)
+			path := mustPassFrom(b, i, stores, func(x ssa.Instruction) bool {
+				return staticCalleeName(x) == "resolve.SortVersions"
+			}, true)
+			if path != nil {
+				r.bad(rule, key, p.pos(c.Pos()), "a path from the append of a new version to the store of the version list skips SortVersions: for npm the place of a version depends on the latest tag of the others, so the list a package reports depends on the order of the AddVersion calls", pathPositions(p, path)...)
+			} else {
+				r.ok(rule, key, p.pos(c.Pos()), "every path to the store of the version list calls SortVersions")
+			}
+		}
+	}
+	r.floor(rule, "appends to the version list in AddVersion", n, 1)
+	if len(stores) == 0 {
+		r.bad(rule, fnKey(f)+": store of the version list", p.pos(f.Pos()), "no store to PackageVersions outside a loop: anchor lost")
 	}
 }
